@@ -91,7 +91,7 @@ func Potrs(t blas64.Triangular, b blas64.General) {
 // The length of work must be at least 3*n and the length of iwork must be at
 // least n.
 func Pbcon(a blas64.SymmetricBand, anorm float64, work []float64, iwork []int) float64 {
-	return lapack64.Dpbcon(a.Uplo, a.N, a.K, a.Data, a.Stride, anorm, work, iwork)
+	return lapack64.Dpbcon(a.Uplo, a.N, a.K, a.Data, max(1, a.Stride), anorm, work, iwork)
 }
 
 // Pbtrf computes the Cholesky factorization of an n×n symmetric positive
@@ -683,7 +683,7 @@ func Lapmt(forward bool, x blas64.General, k []int) {
 // If lwork == -1, instead of performing Orglq, the function only calculates the
 // optimal value of lwork and stores it into work[0].
 func Orglq(a blas64.General, tau, work []float64, lwork int) {
-	lapack64.Dorglq(a.Rows, a.Cols, len(tau), a.Data, a.Stride, tau, work, lwork)
+	lapack64.Dorglq(a.Rows, a.Cols, len(tau), a.Data, max(1, a.Stride), tau, work, lwork)
 }
 
 // Ormlq multiplies the matrix C by the othogonal matrix Q defined by
@@ -729,7 +729,7 @@ func Ormlq(side blas.Side, trans blas.Transpose, a blas64.General, tau []float64
 //
 // Orgqr will panic if the conditions on input values are not met.
 func Orgqr(a blas64.General, tau []float64, work []float64, lwork int) {
-	lapack64.Dorgqr(a.Rows, a.Cols, len(tau), a.Data, a.Stride, tau, work, lwork)
+	lapack64.Dorgqr(a.Rows, a.Cols, len(tau), a.Data, max(1, a.Stride), tau, work, lwork)
 }
 
 // Ormqr multiplies an m×n matrix C by an orthogonal matrix Q as
